@@ -307,7 +307,7 @@ def build_probe(env, reps):
     return cw
 
 
-def build_foreign(env):
+def build_foreign(env, alloc=True):
     """A small raw-key workload for interpretation on other targets (32-bit, big-endian): positions on both
     sides of 2^32, every byte of the counter non-zero, the last value."""
     g = gen.G(env.rnd)
@@ -318,7 +318,7 @@ def build_foreign(env):
         for p in (0, 1, 255, 256, (1 << 32) - 1, 1 << 32, (1 << 32) + 1, 0x0102030405060708, M64 - 1):
             s.call("set_seq", ctx="S", seq=p)
             s.call("seal", ctx="S", api="inplace", pt="0011223344", aad="aa")
-            s.call("seal", ctx="S", api="alloc", pt="-", aad="-")
+            s.call("seal", ctx="S", api="alloc" if alloc else "inplace", pt="-", aad="-")
         s.call("seal", ctx="S", api="inplace", pt="00", aad="-")
     return cw
 
@@ -351,9 +351,12 @@ def run(env):
         env.extra_cov["volume_bytes_per_context"] = 66000 * (1 << 20)
         ftext = build_foreign(env).text()
         foreign = {}
-        for target in ("i686-unknown-linux-gnu", "s390x-unknown-linux-gnu", "aarch64-unknown-linux-gnu"):
-            sessions, note = fw.run_miri(env, "foreign-" + target.split("-")[0], ftext, target=target)
-            foreign[target] = note
+        # (target, cargo features): conjunctions of target and feature set select code too (e.g. a 32-bit no-alloc path)
+        for target, feats in (("i686-unknown-linux-gnu", None), ("s390x-unknown-linux-gnu", None), ("aarch64-unknown-linux-gnu", None),
+                              ("i686-unknown-linux-gnu", ["x25519"]), ("s390x-unknown-linux-gnu", ["x25519", "std"])):
+            text_ = ftext if feats is None or "std" in feats else build_foreign(env, alloc=False).text()
+            sessions, note = fw.run_miri(env, "foreign-" + target.split("-")[0] + ("-" + "-".join(feats) if feats else ""), text_, target=target, features=feats)
+            foreign[target + ("+" + ",".join(feats) if feats else "")] = note
             if sessions is not None:
                 env.pmap(monitor, sessions, workload="foreign", procs=1)
         env.extra_cov["foreign_targets_under_miri"] = foreign
